@@ -141,7 +141,7 @@ func TestVerifC05E2E(t *testing.T) {
 	var id *indexData
 	checked, skipped, nonempty := 0, 0, 0
 	for i := 0; i < n; i++ {
-		if w == nil || i%4 == 0 {
+		if w == nil || i%2 == 0 {
 			w = vfC05GenE2EWorld(r)
 			var err error
 			id, err = vfC05BuildShard(w)
@@ -158,7 +158,7 @@ func TestVerifC05E2E(t *testing.T) {
 		got, err := vfC05EngineSelect(id, q)
 		if err != nil {
 			vfOracleFail("e2e:search-error", "indexData.Search fails on a generated query: "+err.Error(),
-				map[string]any{"query": q.String(), "query_coq": vfC05Coq(q), "world": vfC05WorldJSON(w)})
+				map[string]any{"query": q.String(), "query_coq": vfC05Coq(q), "world": vfC05WorldJSON(w), "seed": vfSeed(), "n": n, "iteration": i})
 			continue
 		}
 		checked++
@@ -183,7 +183,7 @@ func TestVerifC05E2E(t *testing.T) {
 		vfOracleFail("e2e:"+vfC05Shape(small),
 			"the engine (simplify + ExpandFileContent + match tree) and the reference evaluator select different documents for "+small.String(),
 			map[string]any{"query": small.String(), "query_coq": vfC05Coq(small), "engine_selects": g, "reference_selects": vfC05RefSelect(w, small),
-				"simplified": id.simplify(small).String(), "world": vfC05WorldJSON(w), "original_query": q.String()})
+				"simplified": id.simplify(small).String(), "world": vfC05WorldJSON(w), "original_query": q.String(), "seed": vfSeed(), "n": n, "iteration": i})
 	}
 	vfInfo(map[string]any{"e2e_queries_checked": checked, "e2e_skipped_symbol": skipped, "e2e_reference_selects_some_document": nonempty})
 }
